@@ -30,7 +30,7 @@ ClassWords(c) == CASE c = 100 -> <<"Thin">>          [] c = 200 -> <<"Extra", "L
                    [] c = 900 -> <<"Black">>
 \* the exact name of a weight (CFF FontInfo.Weight), numeric if it is not a named class
 NamedWeights == {100, 200, 300, 400, 500, 600, 700, 800, 900}
-ModelWeights == NamedWeights \cup {0, 1, 250, 650, 1000}
+ModelWeights == 0..1000
 WeightName(w) == IF w \in NamedWeights THEN ClassWords(w) ELSE <<ToString(w)>>
 WeightFromName(n) == IF n = <<"Regular">> THEN 400
                      ELSE IF \E w \in ModelWeights : WeightName(w) = n
